@@ -225,6 +225,23 @@ def _explore(res, cell):
         run_forward("cuqi-fun-flag", pname, expect, "CUQIarray",
                     lambda: model.forward(CUQIarray(F.copy(), is_par=False, geometry=dg), is_par=False))
     res.outcomes.add("val:%s:%.6g" % (name, float(np.sum(refs_at[-1]))))
+    # ---- 1b. arrays carrying an EQUAL but separately constructed domain geometry, after variable names were generated
+    #          on the model's own geometry only (lazily created attributes must not make equal geometries unequal)
+    if not cell["dom"].endswith("_grad"):
+        try:
+            dg2 = M.build_model(name, gd, gr, k).model.domain_geometry
+            _ = dg.variables      # (no == between the two objects here: comparing generates the names on the other one too)
+        except Exception:  # noqa
+            dg2 = None
+        if dg2 is not None:
+            pname, p = pts[-1]
+            expect = refs_at[-1]
+            F = np.array(gd.p2f(p), dtype=float)
+            res.state("equal-geometry-copy")
+            run_forward("cuqi-par-equalgeom", pname, expect, "CUQIarray",
+                        lambda: model.forward(CUQIarray(p.copy(), is_par=True, geometry=dg2)))
+            run_forward("cuqi-fun-equalgeom", pname, expect, "CUQIarray",
+                        lambda: model.forward(CUQIarray(F.copy(), is_par=False, geometry=dg2)))
 
     # ---- 2. sample collections with 1, 2, 3 columns ----------------------------------------
     for ncol in (1, 2, 3):
